@@ -59,6 +59,8 @@ type History struct {
 	What    string `json:"what,omitempty"`
 	Ops     []Op   `json:"ops"`
 	Comment string `json:"comment,omitempty"`
+	// a scenario around the real staking handler instead of ops (te.go)
+	Scenario *Scenario `json:"scenario,omitempty"`
 	// filled by run
 	Hashes  []uint64 `json:"-"`
 	Panic   bool     `json:"-"`
@@ -588,6 +590,7 @@ const (
 	F5 = "delegate-from-missing-account"
 	F7 = "stale-index-reload"
 	F8 = "copy-reindexes-removed-validator"
+	F9 = "inplace-update-then-revert"
 )
 
 var two64 = new(big.Int).Lsh(big.NewInt(1), 64)
@@ -625,7 +628,8 @@ type sideState struct {
 	undisc  bool
 	neg     bool
 	classes map[string]bool
-	revVj   map[int]int // valid revision ids
+	revVj   map[int]int // valid revision ids -> length of the validator journal at the snapshot
+	taint   int         // journal entries below this length point at an object that was updated in place since
 	ops     []Op
 	hashes  []uint64
 	panic   bool
@@ -635,6 +639,7 @@ type sideState struct {
 
 func (s *sideState) clone() *sideState {
 	c := &sideState{class: s.class, undisc: s.undisc, neg: s.neg, classes: map[string]bool{}, revVj: map[int]int{}}
+	// (the copy has an empty journal: no taint)
 	for k := range s.classes {
 		c.classes[k] = true
 	}
@@ -703,6 +708,14 @@ func run(h *History, keepRaw bool, trace func(i int, o Op, hs *hasher, c clause)
 					sd.neg = true
 				}
 			}
+			if o.InPlace {
+				// the journal entries whose newVal is the stored object will undo the wrong amounts from now on
+				if r := st.VerifC08Raw(vaddrs[o.A]); r.Present {
+					if d := st.VerifC08AliasDepth(vaddrs[o.A]); d > sd.taint {
+						sd.taint = d
+					}
+				}
+			}
 		case "remove":
 			// removing a validator that still holds delegations leaves the delegators pointing at nothing:
 			// callers must not do that (no business check in RemoveValidator)
@@ -729,8 +742,10 @@ func run(h *History, keepRaw bool, trace func(i int, o Op, hs *hasher, c clause)
 				}
 			}
 		case "revert":
-			if _, ok := sd.revVj[o.Id]; !ok {
+			if vj, ok := sd.revVj[o.Id]; !ok {
 				sd.undisc = true // not a valid revision id
+			} else if vj < sd.taint {
+				enter(F9)
 			}
 		case "copy", "fork":
 			// Copy adds every address of validatorObjectsDirty to the copy's index, removed validators included
@@ -777,11 +792,15 @@ func run(h *History, keepRaw bool, trace func(i int, o Op, hs *hasher, c clause)
 			sd.revVj[nextBefore] = vjBefore
 		case "finalise", "root", "commit", "copy", "fork":
 			sd.revVj = map[int]int{}
+			sd.taint = 0
 		case "revert":
 			for id := range sd.revVj {
 				if id >= o.Id {
 					delete(sd.revVj, id)
 				}
+			}
+			if _, vjNow, _, _, _ := st.VerifC08Counters(); vjNow < sd.taint {
+				sd.taint = vjNow
 			}
 		}
 		hs := observe(st, keepRaw)
@@ -1185,6 +1204,9 @@ func genHistory(r *vf.Rng, flavour int, fork bool) *History {
 			o = Op{K: "remove", A: a}
 		}
 		o.S = sd
+		if o.K == "update" && r.Chance(35) {
+			o.InPlace = true // the second calling convention, with any kind of change
+		}
 		if !allowFindings {
 			// keep the history outside every finding class: test the op on a dry classification
 			if !safeOp(w, h, o) {
@@ -1193,6 +1215,21 @@ func genHistory(r *vf.Rng, flavour int, fork bool) *History {
 		}
 		if !push(o) {
 			break
+		}
+		// the pattern of staking.teDelegationSub: after a withdrawal the handler may set the stored record
+		// offline in place and call UpdateValidator(stored, copy)
+		if o.K == "delegate" && strings.HasPrefix(o.Amt, "-") && r.Chance(50) {
+			if nv := peek(w.sts[sd], vaddrs[o.A]); nv != nil && nv.Status == 1 {
+				u := &Upd{Role: int64(nv.Role), Status: 0, Token: nv.Token.String(), Stake: nv.Stake.String(),
+					SToken: nv.SelfToken.String(), SStake: nv.SelfStake.String(), RDist: nv.RewardsDistributable.String(),
+					RT: nv.RewardsTotal.String(), Misc: int64(nv.LastInactive)}
+				f := Op{K: "update", A: o.A, U: u, InPlace: true, S: sd}
+				if allowFindings || safeOp(w, h, f) {
+					if !push(f) {
+						break
+					}
+				}
+			}
 		}
 	}
 	return h
@@ -1229,7 +1266,11 @@ func opCoq(o Op) string {
 		return fmt.Sprintf("OCreate %s %s %s %s %s", va(), zi(o.Role), zi(o.Status), zs(o.Token), zs(o.Stake))
 	case "update":
 		u := o.U
-		return fmt.Sprintf("OUpdate %s (mkU %s %s %s %s %s %s %s %s %s)", va(), zi(u.Role), zi(u.Status), zs(u.Token), zs(u.Stake), zs(u.SToken), zs(u.SStake), zs(u.RDist), zs(u.RT), zi(u.Misc))
+		k := "OUpdate"
+		if o.InPlace {
+			k = "OUpdateIn"
+		}
+		return fmt.Sprintf(k+" %s (mkU %s %s %s %s %s %s %s %s %s)", va(), zi(u.Role), zi(u.Status), zs(u.Token), zs(u.Stake), zs(u.SToken), zs(u.SStake), zs(u.RDist), zs(u.RT), zi(u.Misc))
 	case "remove":
 		return "ORemove " + va()
 	case "delegate":
@@ -1370,6 +1411,19 @@ func gen(seed uint64, n int, outDir, corpusDir string, flavour int) {
 		}
 		handle(h, map[int]string{0: "disciplined", 1: "adversarial"}[fl])
 	}
+	// the real take-effect handler of a delegation withdrawal (oracle only)
+	for i := 0; i < 10+n/10; i++ {
+		sc := genScenario(r)
+		res.Count("handler-scenario:teDelegationSub")
+		f, forced := runScenario(sc)
+		if forced {
+			res.Count("handler-scenario:validator forced offline in place")
+		}
+		if f != "" {
+			res.OracleHits = append(res.OracleHits, History{What: "teDelegationSub scenario: " + f, Scenario: sc})
+			res.Count("oracle:VIOLATION")
+		}
+	}
 	var sb strings.Builder
 	sb.WriteString("From VF.C08 Require Import Model.\nLocal Open Scope Z_scope.\nDefinition cases : list case := [\n")
 	for i, c := range cases {
@@ -1382,7 +1436,7 @@ func gen(seed uint64, n int, outDir, corpusDir string, flavour int) {
 	vf.WriteFile(filepath.Join(outDir, "Cases.v"), sb.String())
 	res.Cases = len(cases)
 	res.Distinct = len(distinct)
-	res.Rule = "random histories of public StateDB calls (fund, CreateValidator, PartialCopy+UpdateValidator as deposit/withdraw/status/role/rewards/in-place/raw write, RemoveValidator, UpdateDelegation +/-, Snapshot, RevertToSnapshot, Finalise, IntermediateRoot, Commit+state.New, Copy, GetValidatorsForUpdate) over 6 validator keys and 6 delegator accounts, amounts at stake-unit boundaries; 30% of the histories fork (Copy with BOTH handles kept alive over the shared database: build-up of one or two focus delegators' lists to a length with a spare slot, ops interleaved on both handles that mostly add/withdraw delegations of the focus delegators with new validators sorting last, Commit+reload of both; after every op the property oracle runs on both handles and the idle handle's observation must not change; each handle is one case: its own projected history); 55% of the histories stay inside the disciplined finding-free class, 45% are adversarial (finding classes, broken caller discipline, invalid roles/ids); a case is one history with the hash of the complete projected state (statistics, index, cached objects with slice length/capacity, trie records, delegator accounts, journal/revision counters) after every op; non-trivial = contains a create/update/delegate; distinct by full history"
+	res.Rule = "random histories of public StateDB calls (fund, CreateValidator, PartialCopy+UpdateValidator as deposit/withdraw/status/role/rewards/in-place/raw write, RemoveValidator, UpdateDelegation +/-, Snapshot, RevertToSnapshot, Finalise, IntermediateRoot, Commit+state.New, Copy, GetValidatorsForUpdate) over 6 validator keys and 6 delegator accounts, amounts at stake-unit boundaries; 30% of the histories fork (Copy with BOTH handles kept alive over the shared database: build-up of one or two focus delegators' lists to a length with a spare slot, ops interleaved on both handles that mostly add/withdraw delegations of the focus delegators with new validators sorting last, Commit+reload of both; after every op the property oracle runs on both handles and the idle handle's observation must not change; each handle is one case: its own projected history); 35% of the update ops use the in-place convention (the stored record is written, then UpdateValidator(stored, copy)) with any kind of change, and a withdrawal of a delegation from an online validator is followed half of the time by the in-place status change of staking.teDelegationSub; besides the histories, 10+n/10 scenarios per run drive the REAL staking.teDelegationSub (oracle only: total stake at MinStakes, withdrawal below it, then Copy/IntermediateRoot/Commit+reload); 55% of the histories stay inside the disciplined finding-free class, 45% are adversarial (finding classes, broken caller discipline, invalid roles/ids); a case is one history with the hash of the complete projected state (statistics, index, cached objects with slice length/capacity, trie records, delegator accounts, journal/revision counters) after every op; non-trivial = contains a create/update/delegate; distinct by full history"
 	for i, c := range cases {
 		res.CaseDescs = append(res.CaseDescs, History{Ops: c.Ops, Comment: c.Comment})
 		if i < 3 {
@@ -1412,6 +1466,14 @@ func replay(file string, verbose bool) {
 	if err := json.Unmarshal(b, &h); err != nil {
 		fmt.Println(err)
 		os.Exit(2)
+	}
+	if h.Scenario != nil {
+		if f, _ := runScenario(h.Scenario); f != "" {
+			fmt.Println("ORACLE VIOLATION:", f)
+			os.Exit(1)
+		}
+		fmt.Println("property holds on this scenario")
+		return
 	}
 	rr := run(&h, verbose, func(i int, o Op, hs *hasher, c clause) {
 		if verbose {
@@ -1514,10 +1576,12 @@ func main() {
 		replay(*file, *verbose)
 	case "params":
 		paramsOut(*out)
+	case "callers":
+		callersOut(*out)
 	case "f6":
 		reproF6()
 	default:
-		fmt.Println("usage: c08 gen|replay|params")
+		fmt.Println("usage: c08 gen|replay|params|callers")
 		os.Exit(2)
 	}
 }
